@@ -148,6 +148,16 @@ def oracle_c03(case):
                 if k in counters and isinstance(counters[k], int) and counters[k] - counters_prev.get(k, 0) != 1 \
                         and not (name == "choose" and _is_join(prev, op)):
                     out.append(fail(i, f"final passage {pid} was not entered exactly once"))
+        # a statement inside an @if block (outside loops) runs at most once per entry of its passage
+        if name in NAV_OPS and not case.get("cycles"):
+            for k, v in st["vars"].items():
+                if k.startswith("ib_") and isinstance(v, int) and isinstance(prev["vars"].get(k), int):
+                    d = v - prev["vars"][k]
+                    owner = "n_" + k[3:].rsplit("_", 1)[0]
+                    own = [c for c in counters if c.replace(".", "_") == owner]
+                    entries = (counters[own[0]] - counters_prev.get(own[0], 0)) if own and isinstance(counters[own[0]], int) else None
+                    if entries is not None and d > max(entries, 0) and not (name == "choose" and _is_join(prev, op)):
+                        out.append(fail(i, f"a statement inside a block of {owner[2:]} ran {d} time(s) while the passage was entered {entries} time(s) in this navigation"))
         counters_prev = counters
         prev = st
     return out
@@ -458,6 +468,19 @@ def oracle_c07(case):
                 elif isinstance(exp, tuple):
                     out.append(fail(i, f"call {target}({args_src}) violates the call rule ({exp[1]}) but was accepted and bound {got}",
                                     "C07-unvalidated-block-call" if is_block else None))
+        # parameters never alter the global variables: when the step entered exactly one passage, and that passage has a
+        # parameter named like a global, the global is what it was (assignments to the name inside the passage are local)
+        if name in NAV_OPS and "out" in resp:
+            counters = [k for k in st["vars"] if k.startswith("n_") and isinstance(st["vars"][k], int)]
+            moved = [k for k in counters if st["vars"][k] != prev["vars"].get(k, 0)]
+            if len(moved) == 1 and st["vars"][moved[0]] == prev["vars"].get(moved[0], 0) + 1:
+                pid = moved[0][2:]
+                # (an @py block runs in the globals — it does not see the parameters — and may assign any global)
+                has_py = "python_block" in json.dumps(story["passages"].get(pid, {}))
+                for q in ([] if has_py else story["passages"].get(pid, {}).get("params", [])):
+                    if q["name"] in prev["vars"] and st["vars"].get(q["name"]) != prev["vars"][q["name"]]:
+                        out.append(fail(i, f"passage {pid} has a parameter {q['name']}; entering it changed the GLOBAL {q['name']} from "
+                                           f"{prev['vars'][q['name']]!r} to {st['vars'].get(q['name'])!r}"))
         # passages without parameters see no scope (nothing lingers from an earlier passage of the chain)
         if name in NAV_OPS:
             entered_param = [pid for pid, p in story["passages"].items() if p.get("params") and _entered(prev, st, pid)]
@@ -530,6 +553,10 @@ def oracle_c09(case):
     saved = []                  # (hook registrations, position) at each save
     for i, (op, step) in enumerate(zip(case["ops"], real["steps"])):
         st, resp, name = step["state"], step["resp"], op["op"]
+        # registering twice has no additional effect: a passage is listed at most once per event
+        for ev_, lst_ in st["hooks"].items():
+            if len(set(lst_)) != len(lst_) and all(len(set(l0)) == len(l0) for l0 in prev["hooks"].values()):
+                out.append(fail(i, f"after {name} a passage is registered more than once for {ev_}: {lst_}"))
         if name == "save" and not is_raise(resp):
             saved.append((copy.deepcopy(st["hooks"]), st.get("cur")))
             dh = (resp.get("doc") or {}).get("hooks")
